@@ -169,7 +169,7 @@ MAX_NEW_STATES_PER_DEPTH = 6
 def work(arg: tuple) -> dict:
     tier, fam, spec = arg
     depth = 2 if tier == 'quick' else 3
-    alpha = alphabet(spec, tier, full=(fam == 'corpus' and len(S.kinds_used(spec)) >= 2))
+    alpha = alphabet(spec, tier, full=(fam.startswith('corpus') and len(S.kinds_used(spec)) >= 2))
     out = dict(states=0, transitions=0, runs=0, viol=[], sample=None, alphabet=len(alpha))
     tags = sorted(S.static_tags(spec))
     # reference: every alphabet entry on a fresh chart
@@ -215,6 +215,8 @@ def work(arg: tuple) -> dict:
                 elif got[1] != fresh[e[0]][1]:
                     report('trace-differs-from-fresh-chart',
                            f'after {[h[0] for h in hist]}, run {e[0]}: same outcome but a different trace than on a fresh chart', list(hist) + [e])
+                for sym_, det_ in M.m_anomalies(x):
+                    report(sym_, f'run {e[0]}: {det_}', list(hist) + [e])
                 if x.input_copies[0] != given:
                     report('input-kwargs-mutated', f'run {e[0]}: caller dict became {x.input_copies[0]!r}', list(hist) + [e])
                 if x.meta_copies[0] != {'tenant': 't', 'trace': [1, 2]}:
@@ -271,6 +273,17 @@ def run(prop: str, tier: str, seed: int) -> dict:
         for sp in EN.family(f, tier):
             if len(sp['nodes']) <= (4 if q else 5) or f in ('oneof',) and len(sp['nodes']) <= 5:
                 items.append((tier, f, sp))
+    # build_node-derived variants (the generated class and build_node's closure are state shared between runs, too)
+    extra = []
+    for t_, fam_, sp_ in items:
+        if fam_ == 'corpus' or fam_ == 'rec' or len(sp_['nodes']) <= 3:
+            g = json.loads(json.dumps(sp_))
+            elig = [n for n, nd in g['nodes'].items() if n != g['input'] and not nd.get('rec') and any(p[1] != 'plain' for p in nd['params'])]
+            if elig and (q is False or len(g['nodes']) <= 5):
+                for n in elig:
+                    g['nodes'][n]['generic'] = True
+                extra.append((t_, fam_ + '-generic', g))
+    items += extra
     tot = dict(states=0, transitions=0, runs=0, capped=0)
     viol: t.List[dict] = []
     samples = []
